@@ -53,7 +53,7 @@ def run_asyncio_adapter(inp):
         except BaseException as exc:  # noqa: BLE001
             if isinstance(exc, (KeyboardInterrupt, SystemExit)):
                 raise
-            outcome = iosim.exc_code(exc)
+            outcome = 8 if isinstance(exc, (detloop.DeadlockError, asyncio.CancelledError)) else iosim.exc_code(exc)
         finally:
             transport.abort()
             await asyncio.sleep(0)
@@ -178,7 +178,7 @@ def run_async_tls(inp):
         except BaseException as exc:  # noqa: BLE001
             if isinstance(exc, (KeyboardInterrupt, SystemExit)):
                 raise
-            outcome = iosim.exc_code(exc)
+            outcome = 8 if isinstance(exc, (detloop.DeadlockError, asyncio.CancelledError)) else iosim.exc_code(exc)
         finally:
             mem.closed = True
 
@@ -235,7 +235,7 @@ def run_adapter_multi(inp):
         except BaseException as exc:  # noqa: BLE001
             if isinstance(exc, (KeyboardInterrupt, SystemExit)):
                 raise
-            outcome = iosim.exc_code(exc)
+            outcome = 8 if isinstance(exc, (detloop.DeadlockError, asyncio.CancelledError)) else iosim.exc_code(exc)
         finally:
             transport.abort()
             await asyncio.sleep(0)
